@@ -37,6 +37,7 @@ type Case02 struct {
 	HasBase bool    `json:"has_base"`
 	Input   B       `json:"input"`
 	Ops     []Op02  `json:"ops"`
+	Blind   bool    `json:"blind,omitempty"` // getters only after the last step
 }
 
 var reDots = regexp.MustCompile(`\.\.+`)
@@ -203,6 +204,14 @@ func step(r *core.Rec, what func() string, f func()) (ok bool) {
 }
 
 func Check02(c Case02, r *core.Rec) {
+	// Blind programs (a quarter): the getters are not called after every step but once, on every
+	// register, after the last one — a getter fills what is computed on demand, and a step that
+	// dereferences something only a getter creates is invisible when a getter always ran before it.
+	touchUnlessBlind := func(v *url.Url) {
+		if !c.Blind {
+			touch(v)
+		}
+	}
 	var p url.Parser
 	if !step(r, func() string { return "building the parser for " + describe02(c, -1) }, func() { p = buildParser02(c) }) {
 		return
@@ -245,7 +254,7 @@ func Check02(c Case02, r *core.Rec) {
 		return
 	}
 	r.Class("parse:ok")
-	if !step(r, func() string { return "getters after " + describe02(c, -1) }, func() { touch(u) }) {
+	if !step(r, func() string { return "getters after " + describe02(c, -1) }, func() { touchUnlessBlind(u) }) {
 		return
 	}
 	regs = append(regs, u)
@@ -265,14 +274,14 @@ func Check02(c Case02, r *core.Rec) {
 					return
 				}
 				if err == nil {
-					touch(v)
+					touchUnlessBlind(v)
 					if len(regs) < 6 {
 						regs = append(regs, v)
 					}
 				}
 			case "clone":
 				v := x.Clone()
-				touch(v)
+				touchUnlessBlind(v)
 				if len(regs) < 6 {
 					regs = append(regs, v)
 				}
@@ -327,7 +336,7 @@ func Check02(c Case02, r *core.Rec) {
 				// on a copy of the register (the setters' guards are bypassed, so only "returns" is asked)
 				st := setterStates[o.Setter%len(setterStates)]
 				if v, err := p.BasicParser(string(o.Value), nil, x.Clone(), st); err == nil && v != nil {
-					touch(v)
+					touchUnlessBlind(v)
 				}
 			case "spclone":
 				_ = x.SearchParams().Clone().String()
@@ -346,7 +355,7 @@ func Check02(c Case02, r *core.Rec) {
 					return
 				}
 				if err == nil {
-					touch(v)
+					touchUnlessBlind(v)
 				}
 			case "profileparse":
 				prof := []url.Parser{canonicalizer.GoogleSafeBrowsing, canonicalizer.Semantic, canonicalizer.WhatWgSortQuery, canonicalizer.WhatWg}[o.Set%4]
@@ -356,20 +365,30 @@ func Check02(c Case02, r *core.Rec) {
 					return
 				}
 				if err == nil {
-					touch(v)
+					touchUnlessBlind(v)
 				}
 			case "newurl":
 				v := p.NewUrl()
 				_ = v
 			}
 			for _, y := range regs {
-				touch(y)
+				touchUnlessBlind(y)
 			}
 		})
 		if !okStep || r.Failed() {
 			return
 		}
 		r.Class("op:" + o.Kind)
+	}
+	if c.Blind {
+		r.Class("blind-program")
+		for ri, x := range regs {
+			if !step(r, func() string {
+				return fmt.Sprintf("getters of r%d (first read) after %s", ri, describe02(c, len(c.Ops)-1))
+			}, func() { touch(x) }) {
+				return
+			}
+		}
 	}
 	if mutated {
 		r.NT()
@@ -487,6 +506,7 @@ func Gen02(t *rapid.T) Case02 {
 				c.Ops = append(c.Ops, Op02{Kind: "set", Reg: reg, Setter: idx, Value: B(gen.SetterValue(t, "sdvalue", idx))})
 			}
 		}
+		c.Blind = rapid.IntRange(0, 3).Draw(t, "blind") == 0
 		return c
 	}
 	if rapid.IntRange(0, 7).Draw(t, "biglist") == 0 {
@@ -520,6 +540,7 @@ func Gen02(t *rapid.T) Case02 {
 				c.Ops = append(c.Ops, Op02{Kind: "sp", Reg: reg, SP: SPOp{Op: gen.Pick(t, "blspop", []string{"get", "has", "getall", "get", "has", "delete", "set", "append", "sort", "sortabs", "string"}), Name: pickName(), Value: "w"}})
 			}
 		}
+		c.Blind = rapid.IntRange(0, 3).Draw(t, "blind") == 0
 		return c
 	}
 	if rapid.IntRange(0, 5).Draw(t, "juggle") == 0 {
@@ -553,6 +574,7 @@ func Gen02(t *rapid.T) Case02 {
 				c.Ops = append(c.Ops, Op02{Kind: "clone", Reg: reg})
 			}
 		}
+		c.Blind = rapid.IntRange(0, 3).Draw(t, "blind") == 0
 		return c
 	}
 	n := rapid.IntRange(0, 12).Draw(t, "nops")
@@ -591,12 +613,13 @@ func Gen02(t *rapid.T) Case02 {
 		}
 		c.Ops = append(c.Ops, o)
 	}
+	c.Blind = rapid.IntRange(0, 3).Draw(t, "blind") == 0
 	return c
 }
 
 var P02 = core.Register(core.Prop[Case02]{
 	ID: "C02",
-	Rule: "a configuration (a predefined profile unchanged 30%, else 0..6 of 25 url / canonicalizer options with valued options drawn from families: special-scheme maps incl. without file / empty / nil / non-numeric ports, encoding overrides, generated percent-encode sets, total host callbacks, default schemes, sort modes; built with url.NewParser or canonicalizer.New) and a program: an initial Parse / ParseRef (arguments from hostile constants, arbitrary bytes incl. invalid UTF-8 and NUL, C01's mixture, 2% strings of 1 000..16 000 bytes) followed by 0..12 operations over a register file of URLs (nine setters, resolve, Clone, every SearchParams method incl. Iterate and Clone, SetSearchParams with another URL's handle, PercentEncodeString, DecodePercentEncoded, re-parse, profile ParseRef, NewUrl, BasicParser with the setters' state overrides on a copy of a register; Iterate callbacks that call back into the same list), all getters of all registers after every step; " +
+	Rule: "a configuration (a predefined profile unchanged 30%, else 0..6 of 25 url / canonicalizer options with valued options drawn from families: special-scheme maps incl. without file / empty / nil / non-numeric ports, encoding overrides, generated percent-encode sets, total host callbacks, default schemes, sort modes; built with url.NewParser or canonicalizer.New) and a program: an initial Parse / ParseRef (arguments from hostile constants, arbitrary bytes incl. invalid UTF-8 and NUL, C01's mixture, 2% strings of 1 000..16 000 bytes) followed by 0..12 operations over a register file of URLs (nine setters, resolve, Clone, every SearchParams method incl. Iterate and Clone, SetSearchParams with another URL's handle, PercentEncodeString, DecodePercentEncoded, re-parse, profile ParseRef, NewUrl, BasicParser with the setters' state overrides on a copy of a register; Iterate callbacks that call back into the same list), all getters of all registers after every step (a quarter of the programs: only after the last step); " +
 		"oracle: every step returns (recover() around it; a panic is a violation with its stack); a parse never returns (nil, nil) and every getter works on a returned URL; a watchdog turns a case that does not return into a suspected hang, confirmed in a fresh process before it counts; " +
 		"non-trivial = the initial parse succeeded and at least one mutating operation ran, or the parse reached an authority under a non-default configuration; distinct by hash of the case",
 	Gen:   Gen02,
